@@ -202,6 +202,11 @@ class GenericCallAdapter(Adapter):
         to_insert = []
         for key, new_value_element in new_kwargs.items():
             if new_value_element.is_default:
+                if key in old_node_kwargs and isinstance(
+                    self.argument(old_value, key), Unmanaged
+                ):
+                    # this argument stays in the source (see above)
+                    result_kwargs[key] = self.argument(old_value, key)
                 continue
             if key not in old_node_kwargs:
                 # add new values
